@@ -1,8 +1,41 @@
 """C16 — qtools multiplier output types represent every product (DESIGN.md §4 C16)."""
 import itertools
+import json
+from fractions import Fraction as F
+
 import numpy as np
 
 from .. import core, qtypes
+
+NP_FLOAT = {16: np.float16, 32: np.float32, 64: np.float64}
+
+
+def float_samples(bits):
+  """exactly representable values of the IEEE type of that width, aimed at its edges: precision (1 ± ulp,
+  odd significands), range (max, max/4, 2^emax), underflow (smallest normal and subnormal)"""
+  t = NP_FLOAT[bits]
+  fi = np.finfo(t)
+  with np.errstate(all="ignore"):
+    vals = [t(0), t(1), t(-1), t(2), t(0.5), t(3), t(-0.375), t(1) + fi.eps, t(1) - fi.epsneg, t(np.pi),
+            -t(np.e), fi.max, -fi.max, fi.max / t(4), t(2) ** t(fi.maxexp - 1), fi.tiny, fi.tiny * t(4),
+            fi.smallest_subnormal, -fi.smallest_subnormal * t(3), t(1) / t(3), t(1000.0) + t(0.5)]
+  return sorted({F(float(v)) for v in vals if np.isfinite(v)})
+
+
+def in_float(v, bits):
+  """is the exact rational `v` a finite value of the IEEE type of that width (numpy cast round trip)"""
+  t = NP_FLOAT[bits]
+  try:
+    d = float(v)                       # nearest double; an inexact step makes the comparison below fail
+  except OverflowError:
+    return False
+  with np.errstate(all="ignore"):
+    r = t(d)
+  return bool(np.isfinite(r)) and F(float(r)) == v
+
+
+PARTNER_CANDIDATES = [F(0), F(1), F(-1), F(2), F(-2), F(1, 2), F(-1, 2), F(1, 4), F(4), F(3), F(-3), F(3, 4),
+                      F(5, 8), F(7), F(-8), F(1, 16), F(16), F(255), F(1, 256), F(-128), F(127, 128)]
 
 
 def conv_case(label, q):
@@ -39,7 +72,15 @@ def run(run: core.Run, tier: str):
       "operand types = every qtools mode built by the real QuantizerFactory from a grid of qkeras "
       "quantizers (bits, int_bits extremes, signedness, po2 max values); all ordered pairs of a "
       "seeded sample; non-trivial = distinct (weight type, input type) pair; brute force = every "
-      "value pair of types up to 5 bits judged by the Lean Val predicate on the REAL output type")
+      "value pair of types up to 5 bits judged by the Lean Val predicate on the REAL output type; "
+      "floating-point cells: all ordered pairs of {fp16, fp32, None -> default_interm_quantizer, "
+      "FloatingPoint(bits=16/32/64)} with each other and with 28 non-float partners of every mode (also "
+      "fixed-point types wider than the float widths) in both positions, judged by the clauses "
+      "float_output_type (floating-point record of the largest floating operand width) and float_product "
+      "(IEEE value sets by numpy cast round trip, edge values of each width)")
+  run.assumptions.append(
+      "value set of a floating-point type of width 16/32/64 = finite values of the IEEE-754 interchange "
+      "format of that width (numpy float16/32/64); other widths carry no value claim, only the width rule")
 
   # ---- static tie 1: conversion qkeras quantizer -> qtools record
   types = qtypes.qkeras_types(tier, rng)
@@ -147,3 +188,362 @@ def run(run: core.Run, tier: str):
   run.extra["brute_force_type_pairs"] = len(brute_lines)
   run.extra["brute_force_value_pairs"] = n_pairs
   run.evaluations += len(brute_lines)
+
+
+  # ---- histories on ONE impl object: convert A, then B, ... (Props.C16 C16_reconvert_*) -----------------
+  reconvert(run, qf, mf, rng, tier)
+
+  # ---- argument forms: the same configuration written with numpy / tensor scalars ------------------------
+  argument_forms(run, qf, mf)
+
+  # ---- floating-point cells: the clause C16_float judged on the REAL output type ------------------------
+  # (the brute-force oracle above has no value set for a float type and skips every pair with one)
+  float_cells(run, qf, mf)
+
+
+def float_cells(run, qf, mf):
+  """every ordered pair with a floating-point operand: float x float over all widths and construction
+  routes, float x {fixed narrow/wide, po2, ternary, binary +-1, binary 0/1} in both positions.
+  Clauses (independent of the Lean model, exact rationals):
+    float_output_type : the reported output is a floating-point record (mode 5, is_floating_point,
+                        signed) whose width is the LARGEST width among the floating-point operands;
+    float_product     : every product a*b of a value of the weight type and a value of the input type
+                        that the widest floating-point operand type can hold is a value of the reported
+                        output type (IEEE value sets, membership by numpy cast round trip)."""
+  fl = qtypes.float_operands()
+  pa = qtypes.float_partner_operands()
+  ops = []
+  for label, arg in fl + pa:
+    ops.append((label, arg, label in [l for l, _ in fl]))
+  pairs = []
+  for (lw, aw, fw), (lx, ax, fx) in itertools.product(ops, ops):
+    if fw or fx:
+      pairs.append((lw, aw, lx, ax))
+  built = []
+  for lw, aw, lx, ax in pairs:
+    w, x = qf.make_quantizer(aw), qf.make_quantizer(ax)
+    m = mf.make_multiplier(w, x)
+    built.append((lw, lx, w, x, m))
+  # model comparison of the same pairs (the records of the operands as the real factory built them)
+  lines = [{"op": "mul", "w": qtypes.to_rec(w), "x": qtypes.to_rec(x)} for _, _, w, x, _ in built]
+  outs = core.run_driver("C16", lines)
+  # values of the non-float partners: candidates filtered by the type's value predicate
+  part_recs = {}
+  for _, _, w, x, _ in built:
+    for q in (w, x):
+      if not q.is_floating_point:
+        part_recs[json.dumps(qtypes.to_rec(q), sort_keys=True)] = qtypes.to_rec(q)
+  keys = sorted(part_recs)
+  mem = core.run_driver("C16", [{"op": "member", "q": part_recs[k],
+                                 "vals": [core.rj(v) for v in PARTNER_CANDIDATES]} for k in keys])
+  part_vals = {k: [v for v, ok in zip(PARTNER_CANDIDATES, o["in"]) if ok] for k, o in zip(keys, mem)}
+
+  def values(q):
+    if q.is_floating_point:
+      vs = float_samples(int(q.bits)) if int(q.bits) in NP_FLOAT else []
+    else:
+      vs = part_vals[json.dumps(qtypes.to_rec(q), sort_keys=True)]
+    # unit factors first: the first failing product reported is then of the form (+-1) * b or a * (+-1)
+    # whenever one exists, i.e. the output type does not even hold the operand's own values
+    return sorted(vs, key=lambda v: (abs(v) != 1, abs(v), v))
+
+  probe = {16: set(), 32: set(), 64: set()}
+  n_products = 0
+  for (lw, lx, w, x, m), line, o in zip(built, lines, outs):
+    out = m.output
+    ro = qtypes.to_rec(out)
+    kind = m.implemented_as()
+    fbits = [int(q.bits) for q in (w, x) if q.is_floating_point]
+    want = max(fbits)
+    rel = ("both_w_narrower" if len(fbits) == 2 and int(w.bits) < int(x.bits) else
+           "both_w_wider" if len(fbits) == 2 and int(w.bits) > int(x.bits) else
+           "both_equal" if len(fbits) == 2 else
+           "weight_only" if w.is_floating_point else "input_only")
+    other = [q for q in (w, x) if not q.is_floating_point]
+    wide_partner = bool(other) and int(other[0].bits) > want
+    run.case(("float_cell", lw, lx), sample=None)
+    run.compared += 1
+    run.count("float_cell_" + rel + ("_partner_wider_than_float" if wide_partner else ""))
+    run.count("cell_%d_%d" % (int(w.mode), int(x.mode)))
+    mirrored = True
+    if "err" in o or qtypes.rec_eq(ro, o["out"]) or o["impl"] != kind:
+      mirrored = False
+      run.disagree("make_multiplier", {"w": lw, "x": lx, "w_rec": line["w"], "x_rec": line["x"]},
+                   {"impl": kind, "out": ro}, o)
+    if "err" not in o and kind != o["spec_impl"]:
+      run.violate("impl_kind", {"cell": [int(w.mode), int(x.mode)]},
+                  {"w": lw, "x": lx, "implemented_as": kind, "expected": o["spec_impl"]}, mirrored=mirrored)
+    key = {"cell": "float", "operands": rel, "w_mode": int(w.mode), "x_mode": int(x.mode),
+           "partner_wider_than_float": wide_partner}
+    replay = ("MultiplierFactory().make_multiplier(QuantizerFactory().make_quantizer(%s), "
+              "QuantizerFactory().make_quantizer(%s)).output" % (lw, lx))
+    ok_type = (bool(out.is_floating_point) and int(out.mode) == 5 and out.bits is not None and
+               int(out.bits) == want and bool(out.is_signed) and str(out.name) == "floating_point")
+    if not ok_type:
+      run.violate("float_output_type", key,
+                  {"w": lw, "x": lx, "w_bits": int(w.bits), "x_bits": int(x.bits),
+                   "floating_point_operand_widths": fbits, "expected_output_bits": want, "out": ro,
+                   "implemented_as": kind, "replay": replay}, mirrored=mirrored)
+    # value level: products the widest floating operand type holds must be values of the output type
+    ob = int(out.bits) if (out.bits is not None and bool(out.is_floating_point)) else None
+    if want in NP_FLOAT and ob in NP_FLOAT:
+      bad = None
+      for a in values(w):
+        for b in values(x):
+          pr = a * b
+          n_products += 1
+          if len(probe[want]) < 4000:
+            probe[want].add(pr)
+          if in_float(pr, want) and not in_float(pr, ob):
+            bad = (a, b, pr)
+            break
+        if bad:
+          break
+      if bad:
+        a, b, pr = bad
+        run.violate("float_product", key,
+                    {"w": lw, "x": lx, "out": ro, "a": str(a), "b": str(b), "product": str(pr),
+                     "a_float": float(a), "b_float": float(b),
+                     "product_is_a_value_of_float%d" % want: True,
+                     "product_is_a_value_of_reported_float%d" % ob: False, "replay": replay},
+                    mirrored=mirrored)
+  run.extra["float_cells"] = {"pairs": len(built), "products_judged": n_products,
+                              "float_routes": [l for l, _ in fl], "partners": [l for l, _ in pa]}
+  run.evaluations += n_products
+  # tie of the value-set model (Props.C16 ValFloat) to real IEEE types: Lean membership vs numpy casts
+  fl_lines, fl_meta = [], []
+  for bits in (16, 32, 64):
+    vs = sorted(probe[bits] | {v for b2 in (16, 32, 64) for v in float_samples(b2)})
+    fl_lines.append({"op": "floatval", "bits": bits, "vals": [core.rj(v) for v in vs]})
+    fl_meta.append((bits, vs))
+  for (bits, vs), o in zip(fl_meta, core.run_driver("C16", fl_lines)):
+    for v, mdl in zip(vs, o["in"]):
+      run.compared += 1
+      if bool(mdl) != in_float(v, bits):
+        run.disagree("float_value_set", {"bits": bits, "value": str(v)}, in_float(v, bits), bool(mdl))
+    run.count("float_value_set_probes_fp%d" % bits, len(vs))
+
+
+def history_configs():
+  """per qkeras class: (label, constructor) configurations aimed at the fields a conversion writes or
+  forgets: bits / integer / sign, the 1-bit 0/1 mode of quantized_relu, use_01, po2 caps (None, 0 = falsy,
+  below / at / above 1, non powers of two)"""
+  from qkeras import quantizers as Q
+  cfg = {}
+  cfg["quantized_bits"] = [("quantized_bits(%d,%d,keep_negative=%d)" % a, (lambda a=a: Q.quantized_bits(a[0], a[1], keep_negative=a[2])))
+                           for a in [(4, 0, 1), (4, 0, 0), (2, 1, 1), (1, 0, 1), (3, 3, 0), (5, -1, 1), (3, 0, 1), (2, 0, 0)]]
+  cfg["quantized_relu"] = [("quantized_relu(%d,%d,negative_slope=%s)" % a, (lambda a=a: Q.quantized_relu(a[0], a[1], negative_slope=a[2])))
+                           for a in [(4, 1, 0.0), (4, 1, 0.25), (3, 0, 0.0), (3, 0, 0.25), (1, 1, 0.0), (1, 0, 0.0), (2, 2, 0.0),
+                                     (2, 1, 0.125)]]
+  cfg["quantized_tanh"] = [("quantized_tanh(%d)" % b, (lambda b=b: Q.quantized_tanh(b))) for b in (2, 3, 5)]
+  cfg["quantized_ulaw"] = [("quantized_ulaw(%d,%d)" % a, (lambda a=a: Q.quantized_ulaw(a[0], a[1]))) for a in [(4, 1), (3, 0), (5, 2)]]
+  cfg["binary"] = [("binary(use_01=%d)" % u, (lambda u=u: Q.binary(use_01=bool(u)))) for u in (0, 1)]
+  cfg["stochastic_binary"] = [("stochastic_binary()", Q.stochastic_binary)]
+  cfg["bernoulli"] = [("bernoulli()", Q.bernoulli)]
+  cfg["ternary"] = [("ternary()", Q.ternary)]
+  cfg["stochastic_ternary"] = [("stochastic_ternary()", Q.stochastic_ternary)]
+  mvs = [None, 0, 0.25, 1, 2, 16, 3, 0.75]
+  for cls in ("quantized_po2", "quantized_relu_po2"):
+    cfg[cls] = [("%s(%d,%s)" % (cls, b, mv), (lambda cls=cls, b=b, mv=mv: getattr(Q, cls)(b, mv)))
+                for b in (3, 4, 6) for mv in mvs]
+  return cfg
+
+
+def history_kind(cls, earlier, qb):
+  """which forgotten-field situation a history aims at: what ANY earlier conversion on the object set
+  versus what the last quantizer needs"""
+  if "po2" in cls:
+    ca, cb = any(bool(q.max_value) for q in earlier), bool(qb.max_value)
+    return {(True, False): "capped_then_uncapped", (False, True): "uncapped_then_capped",
+            (True, True): "capped_then_capped", (False, False): "uncapped_then_uncapped"}[(ca, cb)]
+  if cls == "quantized_relu":
+    sa, sb = any(q.negative_slope != 0 for q in earlier), qb.negative_slope != 0
+    return {(True, False): "signed_then_unsigned", (False, True): "unsigned_then_signed",
+            (True, True): "signed_then_signed", (False, False): "unsigned_then_unsigned"}[(sa, sb)]
+  qa = earlier[-1]
+  if cls == "quantized_bits":
+    return "sign_change" if bool(qa.keep_negative) != bool(qb.keep_negative) else "same_sign"
+  if cls == "binary":
+    return "use_01_change" if bool(qa.use_01) != bool(qb.use_01) else "same_use_01"
+  return "same_class"
+
+
+def reconvert(run, qf, mf, rng, tier):
+  """One impl object of every class the factory knows, converted from a SEQUENCE of quantizers of its
+  class (all ordered pairs of the configurations, plus seeded triples): after every step the record must
+  be the record of a fresh conversion of that step's quantizer (clause reconvert_equals_fresh), and
+  multipliers built from the reused object must hold every product of the values the LAST quantizer's
+  type really has (clause product, brute force with the fresh record as the value set)."""
+  from qkeras import quantizers as Q
+  cfgs = history_configs()
+  hist = []
+  for cls, cs in cfgs.items():
+    n = len(cs)
+    pairs = [(i, j) for i in range(n) for j in range(n)]
+    if len(pairs) > 160:
+      # all same-width pairs (the cap / sign cases), a seeded sample of the rest
+      same = [(i, j) for i, j in pairs if cs[i][0].split(",")[0] == cs[j][0].split(",")[0]]
+      rest = [pq for pq in pairs if pq not in set(same)]
+      pick = rng.choice(len(rest), size=min(60, len(rest)), replace=False)
+      pairs = same + [rest[int(k)] for k in sorted(pick.tolist())]
+    for i, j in pairs:
+      hist.append((cls, [i, j]))
+    for _ in range(min(12, n * n)):
+      hist.append((cls, [int(rng.integers(0, n)) for _ in range(int(rng.integers(3, 6)))]))
+  partners = [("quantized_bits(3,0,keep_negative=1)", Q.quantized_bits(3, 0, keep_negative=1)),
+              ("ternary()", Q.ternary()), ("quantized_po2(3,None)", Q.quantized_po2(3, None)),
+              ("binary(use_01=1)", Q.binary(use_01=True))]
+  partner_impl = [(l, qf.make_quantizer(q)) for l, q in partners]
+  lines, metas = [], []
+  for cls, ixs in hist:
+    qs = [cfgs[cls][i][1]() for i in ixs]
+    labels = [cfgs[cls][i][0] for i in ixs]
+    impl_cls = qf.quantizer_lookup[type(qs[0])]
+    obj = impl_cls()
+    states = []
+    for q in qs:
+      obj.convert_qkeras_quantizer(q)
+      states.append(qtypes.to_rec(obj))
+    fresh = [qtypes.to_rec(qf.make_quantizer(q)) for q in qs]
+    lines.append({"op": "reconvert", "cls": cls, "history": [conv_case(l, q) for l, q in zip(labels, qs)]})
+    metas.append((cls, labels, qs, obj, states, fresh))
+  outs = core.run_driver("C16", lines)
+  brute_lines, brute_meta = [], []
+  for (cls, labels, qs, obj, states, fresh), line, o in zip(metas, lines, outs):
+    kind = history_kind(cls, qs[:-1], qs[-1])
+    run.case(("reconvert", cls, tuple(labels)))
+    run.compared += 1
+    run.count("reconvert_%s_%s" % (cls, kind))
+    mirrored = True
+    for k, (st, mo) in enumerate(zip(states, o["states"])):
+      if mo is None or qtypes.rec_eq(st, mo):
+        mirrored = False
+        run.disagree("reconvert", {"cls": cls, "history": labels, "step": k}, st, mo)
+        break
+    # the fresh conversion itself (second tie of `ofQuantizer`, through the factory route)
+    for k, (fr, mo) in enumerate(zip(fresh, o["fresh"])):
+      if mo is None or qtypes.rec_eq(fr, mo):
+        mirrored = False
+        run.disagree("convert", {"cls": cls, "history": labels, "step": k}, fr, mo)
+        break
+    # clause: the k-th use of the object behaves like a fresh object
+    for k in range(1, len(states)):
+      d = qtypes.rec_eq(states[k], fresh[k])
+      if d:
+        kk = history_kind(cls, qs[:k], qs[k])
+        run.violate("reconvert_equals_fresh", {"cls": cls, "history": kk, "fields": sorted(d)},
+                    {"class": type(obj).__name__, "history": labels[: k + 1], "step": k,
+                     "record_on_reused_object": states[k], "record_on_fresh_object": fresh[k],
+                     "replay": "o = quantizer_impl.%s(); [o.convert_qkeras_quantizer(q) for q in history]; vars(o)"
+                               % type(obj).__name__},
+                    mirrored=mirrored)
+        break
+    # value level: multipliers built from the reused object vs the values the last quantizer really has
+    if small(fresh[-1]):
+      for pl, pi in partner_impl:
+        for pos in ("w", "x"):
+          m = mf.make_multiplier(obj, pi) if pos == "w" else mf.make_multiplier(pi, obj)
+          ro = qtypes.to_rec(m.output)
+          if ro["mode"] == 5:
+            continue
+          pr = qtypes.to_rec(pi)
+          w_rec, x_rec = (fresh[-1], pr) if pos == "w" else (pr, fresh[-1])
+          # what the model says for the STATE of the reused object
+          brute_lines.append({"op": "brute", "w": w_rec, "x": x_rec, "out": ro})
+          brute_meta.append((cls, kind, labels, pl, pos, m.implemented_as(), ro, states[-1], pr, mirrored))
+  mul_lines = [{"op": "mul", "w": (st if pos == "w" else pr), "x": (pr if pos == "w" else st)}
+               for (_, _, _, _, pos, _, _, st, pr, _) in brute_meta]
+  mul_outs = core.run_driver("C16", mul_lines)
+  outs = core.run_driver("C16", brute_lines)
+  n_pairs = 0
+  for (cls, kind, labels, pl, pos, impl, ro, st, pr, mirrored), o, mo in zip(brute_meta, outs, mul_outs):
+    n_pairs += o["pairs"]
+    run.compared += 1
+    if "err" in mo or qtypes.rec_eq(ro, mo["out"]) or mo["impl"] != impl:
+      mirrored = False
+      run.disagree("make_multiplier", {"reused_object": labels, "partner": pl, "position": pos},
+                   {"impl": impl, "out": ro}, mo)
+    if o["bad"] is not None:
+      a, b = core.unrj(o["bad"][0]), core.unrj(o["bad"][1])
+      zero = (a * b == 0)
+      key = {"impl": impl, "out_mode": ro["mode"], "zero_product": zero, "history_cls": cls, "history": kind,
+             "reused_position": pos}
+      run.violate("zero" if zero else "product", key,
+                  {"history_on_one_object": labels, "partner": pl, "out": ro, "a": str(a), "b": str(b),
+                   "product": str(a * b), "record_on_reused_object": st,
+                   "replay": "o = impl(); [o.convert_qkeras_quantizer(q) for q in history]; "
+                             "MultiplierFactory().make_multiplier(o, partner).output  (reused object as %s)" % pos},
+                  mirrored=mirrored)
+  run.extra["reconvert"] = {"histories": len(hist), "brute_force_type_pairs": len(brute_lines),
+                            "brute_force_value_pairs": n_pairs}
+  run.evaluations += len(brute_lines)
+
+
+def argument_forms(run, qf, mf):
+  """same value, different Python type (int / np.int32 / np.int64 / np.float32 / np.float64 / 0-d array /
+  tf.constant / np.bool_ / keyword vs positional): the qtools record and the multiplier built from it
+  must be those of the plain-number twin (clause argument_form); every form also goes to the model."""
+  import tensorflow as tf
+  from qkeras import quantizers as Q
+  groups = [
+      ("quantized_po2(4,2)", [
+          ("int", lambda: Q.quantized_po2(4, 2)), ("float", lambda: Q.quantized_po2(4, 2.0)),
+          ("np.float32", lambda: Q.quantized_po2(np.int64(4), np.float32(2))),
+          ("np.float64", lambda: Q.quantized_po2(np.int32(4), np.float64(2))),
+          ("np.int64", lambda: Q.quantized_po2(4, np.int64(2))),
+          ("0-d array", lambda: Q.quantized_po2(4, np.array(2.0))),
+          ("tf.constant", lambda: Q.quantized_po2(4, tf.constant(2.0))),
+          ("keywords", lambda: Q.quantized_po2(max_value=2.0, bits=4))]),
+      ("quantized_relu_po2(5,0) (falsy cap)", [
+          ("int", lambda: Q.quantized_relu_po2(5, 0)), ("None", lambda: Q.quantized_relu_po2(5, None)),
+          ("np.float32", lambda: Q.quantized_relu_po2(5, np.float32(0))),
+          ("np.int64", lambda: Q.quantized_relu_po2(np.int64(5), np.int64(0))),
+          ("float", lambda: Q.quantized_relu_po2(5, 0.0))]),
+      ("quantized_relu_po2(4,0.25)", [
+          ("float", lambda: Q.quantized_relu_po2(4, 0.25)), ("np.float32", lambda: Q.quantized_relu_po2(4, np.float32(0.25))),
+          ("np.float64", lambda: Q.quantized_relu_po2(4, np.float64(0.25))),
+          ("tf.constant", lambda: Q.quantized_relu_po2(4, tf.constant(0.25)))]),
+      ("quantized_bits(4,1,keep_negative=0)", [
+          ("int", lambda: Q.quantized_bits(4, 1, keep_negative=0)), ("bool", lambda: Q.quantized_bits(4, 1, keep_negative=False)),
+          ("numpy", lambda: Q.quantized_bits(np.int64(4), np.int32(1), keep_negative=np.bool_(False))),
+          ("tf integer", lambda: Q.quantized_bits(4, tf.constant(1), keep_negative=False)),
+          ("keywords", lambda: Q.quantized_bits(integer=1, bits=4, keep_negative=False))]),
+      ("quantized_relu(4,1)", [
+          ("int", lambda: Q.quantized_relu(4, 1)), ("numpy", lambda: Q.quantized_relu(np.int64(4), np.int64(1), negative_slope=np.float32(0.0))),
+          ("slope int 0", lambda: Q.quantized_relu(4, 1, negative_slope=0))]),
+      ("quantized_relu(4,1,negative_slope=0.25)", [
+          ("float", lambda: Q.quantized_relu(4, 1, negative_slope=0.25)),
+          ("np.float64", lambda: Q.quantized_relu(4, 1, negative_slope=np.float64(0.25))),
+          ("np.float32", lambda: Q.quantized_relu(np.int32(4), 1, negative_slope=np.float32(0.25)))]),
+      ("quantized_relu(1,1) (0/1 mode)", [
+          ("int", lambda: Q.quantized_relu(1, 1)), ("numpy", lambda: Q.quantized_relu(np.int64(1), np.int64(1)))]),
+      ("binary(use_01=1)", [
+          ("bool", lambda: Q.binary(use_01=True)), ("int", lambda: Q.binary(use_01=1)),
+          ("np.bool_", lambda: Q.binary(use_01=np.bool_(True)))]),
+  ]
+  partner = qf.make_quantizer(Q.quantized_bits(3, 0, keep_negative=1))
+  lines, metas = [], []
+  for glabel, forms in groups:
+    ref = None
+    for flabel, ctor in forms:
+      q = ctor()
+      impl = qf.make_quantizer(q)
+      rec = qtypes.to_rec(impl)
+      outs_ = [qtypes.to_rec(mf.make_multiplier(impl, partner).output),
+               qtypes.to_rec(mf.make_multiplier(partner, impl).output)]
+      if ref is None:
+        ref = (flabel, rec, outs_)
+      run.case(("argument_form", glabel, flabel))
+      run.compared += 1
+      run.count("argument_form_" + flabel.replace(" ", "_"))
+      lines.append(conv_case(glabel, q))
+      metas.append((glabel, flabel, rec))
+      if qtypes.rec_eq(rec, ref[1]) or any(qtypes.rec_eq(a, b) for a, b in zip(outs_, ref[2])):
+        run.violate("argument_form", {"config": glabel, "form": flabel},
+                    {"configuration": glabel, "form": flabel, "record": rec, "reference_form": ref[0],
+                     "reference_record": ref[1], "multiplier_outputs": outs_, "reference_multiplier_outputs": ref[2],
+                     "replay": "QuantizerFactory().make_quantizer(<%s written with %s arguments>)" % (glabel, flabel)},
+                    mirrored=False)
+  for (glabel, flabel, rec), line, o in zip(metas, lines, core.run_driver("C16", lines)):
+    if "err" in o or qtypes.rec_eq(rec, o["out"]):
+      run.disagree("convert", {"quantizer": glabel, "form": flabel, "line": line}, rec, o)
